@@ -29,6 +29,11 @@ func (s *String) read(n int) []byte {
 	}
 	v := (*s)[:n]
 	*s = (*s)[n:]
+	if v == nil {
+		// A zero-length read from a nil String succeeds like one from an
+		// empty String; nil is reserved for failure.
+		v = []byte{}
+	}
 	return v
 }
 
